@@ -181,6 +181,39 @@ pub fn gen_c04_error_after_open_giant_row(r: &mut Rng) -> Plan {
     gen_c04(r, Tier::Quick, 0)
 }
 
+/// for C03: a giant text record that is refused (one value short) by a shim that carries on
+pub fn gen_c04_refused_giant(r: &mut Rng) -> Plan {
+    for _ in 0..400 {
+        let j = r.below(5);
+        let p = gen_c04(r, Tier::Quick, j);
+        // what is written of the refused record (all cells but the last) must fill at least one
+        // packet, which has left by the time of the refusal, and a row must follow it
+        let hit = p.cmds.iter().any(|c| {
+            matches!(&c.act, Act::Program(pg) if pg.units.iter().any(|u| match u {
+                Unit::Rows(ru) if ru.recover.is_some() => match ru.contra {
+                    Some(Contra::TooFewCols { row }) => {
+                        let cells = &ru.rows[row as usize];
+                        let written: u64 = cells[..cells.len() - 1]
+                            .iter()
+                            .map(|c| match c {
+                                Cell::Bytes(b) | Cell::VecBytes(b) => b.len() as u64,
+                                _ => 0,
+                            })
+                            .sum();
+                        written > U24 + 16 && (row as usize) + 1 < ru.rows.len() && matches!(ru.close, Close::Finish)
+                    }
+                    _ => false,
+                },
+                _ => false,
+            }))
+        });
+        if hit {
+            return p;
+        }
+    }
+    gen_c04(r, Tier::Quick, 0)
+}
+
 pub fn gen_c04_plan(r: &mut Rng, tier: Tier, job: u64) -> Plan {
     gen_c04(r, tier, job)
 }
